@@ -234,6 +234,9 @@ impl Envelope {
     /// value of the range is less than 8 bytes.
     #[doc(hidden)]
     pub fn add_salt_in_range_using(&self, range: &RangeInclusive<usize>, rng: &mut impl RandomNumberGenerator) -> Result<Self> {
+        if range.start() > range.end() {
+            anyhow::bail!("salt length range is empty");
+        }
         Ok(self.add_salt_instance(Salt::new_in_range_using(range, rng)?))
     }
 
